@@ -574,7 +574,12 @@ def r05g(R):
             return (sides[0] == S and sides[1] == Lin.const(0)) or \
                 (sides[1] == S and sides[0] == Lin.const(0))
         return False
-    short = [n for n in cfg.nodes if n.kind == 'cond' and empty_test(n.ast)]
+    def empty_test2(e):
+        # `not self._routine_segment`, `len(...) < 1` and the other notations
+        em = A.emptiness(e)
+        return em is not None and em[0] == 'self._routine_segment'
+    short = [n for n in cfg.nodes if n.kind == 'cond'
+             and (empty_test(n.ast) or empty_test2(n.ast))]
     R.check(gc, 'no routines -> main segment unchanged', bool(short) and any(
         norm(r.ret_expr) == 'self._main_segment' for r in cfg.return_nodes()
         if r.ret_expr is not None), 'without routines the image must be the '
